@@ -273,6 +273,9 @@ fn main_builder_replay(args: &[String]) -> i32 {
     0
 }
 
+/// Set when a generator family panicked (its remaining cases are missing from the output).
+pub static GEN_PANICKED: std::sync::atomic::AtomicBool = std::sync::atomic::AtomicBool::new(false);
+
 fn main() {
     // Panics of the library under test are expected and caught; keep stderr clean.
     // FG_PANIC_VERBOSE=1 prints them (debugging the harness itself).
@@ -288,6 +291,11 @@ fn main() {
         Some("runtime") => runtime::main_runtime(&args[2..]),
         Some("runtime-replay") => runtime::main_runtime_replay(&args[2..]),
         _ => usage(),
+    };
+    let code = if code == 0 && GEN_PANICKED.load(std::sync::atomic::Ordering::SeqCst) {
+        4 // a generator family panicked: part of the cases is missing
+    } else {
+        code
     };
     std::process::exit(code);
 }
